@@ -24,9 +24,9 @@ type CloseCase struct {
 	Cycles int       `json:"cycles,omitempty"`  // cycles: number of open/close repetitions
 }
 
-const c17Rule = "four generated situations on stores with 1 ms GC and sync intervals (both collectors and the flusher really run): (parked) the cooperative scheduler adopts the store's own background goroutines at their named points, holds one of them at a drawn point inside a GC cycle or a flush, and then issues Close from the foreground task; (timers) free-running activity, a drawn pause, Close; (failopen) OpenStore that must fail (other index/primary file size, garbage or empty header files, unsupported primary type) on an existing store; (cycles) 1-30 open/activity/close repetitions. " +
+const c17Rule = "five generated situations on stores with 1 ms GC and sync intervals (both collectors and the flusher really run): (parked) the cooperative scheduler adopts the store's own background goroutines at their named points, holds one of them at a drawn point inside a GC cycle or a flush, and then issues Close from the foreground task; (timers) free-running activity, a drawn pause, Close; (failopen) OpenStore that must fail (other index/primary file size, the same together with another bit size so that the failure happens inside the index translation, another bit size with an index file missing, garbage or empty header files, unsupported primary type) on an existing store; (cycles) 1-30 open/activity/close repetitions; (faultclose) an environment fault (stray file at the next primary file name, stray directory at the next index file name or at the temporary name of the bucket snapshot) makes the flush or the snapshot inside Close fail - Close may return the error but must still stop everything and release every descriptor. " +
 	"oracle = census right after Close (or the failed open) returns: no goroutine with a frame of the module (polled up to 2 s so that goroutines that already signalled completion can finish returning; a goroutine parked at a named point never finishes), no descriptor in /proc/self/fd pointing into the store directory, directory listing with sizes and content hashes unchanged across a pause and after every held goroutine is released, second Close returns nil, a reopen works; counts after N cycles equal the baseline. " +
-	"non-trivial = Close issued while a GC cycle or flush was provably in progress (a background goroutine held at a named point, or point counters advanced within the last pause); distinct = distinct canonical JSON of the case"
+	"non-trivial = Close issued while a GC cycle or flush was provably in progress (a background goroutine held at a named point, or point counters advanced within the last pause), an open that did fail, or a Close that did return the injected error; distinct = distinct canonical JSON of the case"
 
 var c17BgPoints = []string{"igc.begin", "igc.file", "igc.reap.busyChecked", "igc.reap.mark", "igc.reap.truncate", "igc.header", "igc.unlink", "igc.free.scanned", "igc.free.unlink",
 	"pgc.begin", "pgc.fl.togc", "pgc.fl.handed", "pgc.fl.mark", "pgc.fl.remove", "pgc.freelistDone", "pgc.file", "pgc.reap.truncate", "pgc.reap.relocate", "pgc.reap.updated", "pgc.header", "pgc.unlink",
@@ -34,7 +34,7 @@ var c17BgPoints = []string{"igc.begin", "igc.file", "igc.reap.busyChecked", "igc
 
 func genClose(t *rapid.T) CloseCase {
 	var c CloseCase
-	c.Mode = []string{"parked", "timers", "failopen", "cycles"}[weighted(t, "mode", []int{5, 3, 2, 1})]
+	c.Mode = []string{"parked", "timers", "failopen", "cycles", "faultclose"}[weighted(t, "mode", []int{5, 3, 4, 1, 2})]
 	c.Cfg = genConfig(t, cfgGenOpts{onlyMultihash: c.Mode != "failopen", smallBits: true, smallFiles: true})
 	if c.Cfg.Bits > 12 {
 		c.Cfg.Bits = 8
@@ -49,9 +49,14 @@ func genClose(t *rapid.T) CloseCase {
 	case "timers":
 		c.WaitUS = rapid.IntRange(0, 4000).Draw(t, "wait")
 	case "failopen":
-		c.Fail = []string{"index-size", "primary-size", "garbage-index-header", "empty-index-header", "garbage-primary-header", "empty-primary-header", "primary-type"}[rapid.IntRange(0, 6).Draw(t, "fail")]
+		c.Fail = []string{"index-size", "primary-size", "garbage-index-header", "empty-index-header", "garbage-primary-header", "empty-primary-header", "primary-type",
+			"index-size+bits", "primary-size+bits", "bits+missing-index-file"}[rapid.IntRange(0, 9).Draw(t, "fail")]
 	case "cycles":
 		c.Cycles = rapid.IntRange(1, 30).Draw(t, "cycles")
+	case "faultclose":
+		c.Fail = []string{"stray-next-primary-file", "stray-dir-at-next-index-file", "stray-dir-at-snapshot-tmp"}[rapid.IntRange(0, 2).Draw(t, "fault")]
+		c.Cfg.PrimSize = []uint32{16, 64, 256}[rapid.IntRange(0, 2).Draw(t, "fprim")]
+		c.Cfg.IdxSize = []uint32{16, 64, 256}[rapid.IntRange(0, 2).Draw(t, "fidx")]
 	}
 	return c
 }
@@ -206,6 +211,55 @@ func runClose(c CloseCase) (st closeStats, v *Violation) {
 			}
 		}
 		return st, nil
+	case "faultclose":
+		// An environment fault makes the flush inside Close (or the saving of
+		// the bucket table) fail: Close may return the error, but it must
+		// still stop everything and release every descriptor.
+		s, err := openBusy(dir, c.Cfg)
+		if err != nil {
+			return st, viol("open-error|open|"+errClass(err), 0, "OpenStore: %v", err)
+		}
+		s.Start()
+		apply(s, c.Ops)
+		s.Flush()
+		stray := func(base string, asDir bool) {
+			nums := numberedFiles(dir, base)
+			next := uint32(0)
+			if len(nums) > 0 {
+				next = nums[len(nums)-1] + 1
+			}
+			for n := next; n < next+3; n++ {
+				name := filepath.Join(dir, fmt.Sprintf("%s.%d", base, n))
+				if asDir {
+					os.Mkdir(name, 0o755)
+				} else {
+					os.WriteFile(name, []byte("stray"), 0o644)
+				}
+			}
+		}
+		switch c.Fail {
+		case "stray-next-primary-file":
+			stray(dataBase, false)
+		case "stray-dir-at-next-index-file":
+			stray(idxBase, true)
+		default:
+			os.Mkdir(filepath.Join(dir, idxBase+".buckets.tmp"), 0o755)
+		}
+		// Unflushed writes, so that the flush inside Close has to roll over.
+		for i := 0; i < 2*len(c.Keys); i++ {
+			s.Put(c.Keys[i%len(c.Keys)].Encode(c.Cfg.Primary, false), valueFor(900+i, 40, false))
+		}
+		if err := s.Close(); err != nil {
+			st.inProgress = true // the fault was hit: Close reports an error
+		}
+		if v := census(dir, baseline, "Close"); v != nil {
+			v.Signature += c.Fail
+			return st, v
+		}
+		if v := stable("Close"); v != nil {
+			return st, v
+		}
+		return st, nil
 	case "failopen":
 		s, err := openStore(dir, c.Cfg)
 		if err != nil {
@@ -227,7 +281,35 @@ func runClose(c CloseCase) (st closeStats, v *Violation) {
 			os.WriteFile(p, content, 0o644)
 			restore = func() { os.WriteFile(p, old, 0o644) }
 		}
+		otherBits := func() uint8 {
+			if c.Cfg.Bits >= 12 {
+				return c.Cfg.Bits - 3
+			}
+			return c.Cfg.Bits + 3
+		}
 		switch c.Fail {
+		case "index-size+bits":
+			// The bit size differs too, so the open enters the translation of
+			// the index and fails inside it.
+			bad.IdxSize = uint32(effectiveSize(c.Cfg.IdxSize)/2 + 3)
+			bad.Bits = otherBits()
+		case "primary-size+bits":
+			bad.Bits = otherBits()
+			if c.Cfg.Primary != store.MultihashPrimary {
+				bad.IdxSize = uint32(effectiveSize(c.Cfg.IdxSize)/2 + 3)
+			} else {
+				bad.PrimSize = uint32(effectiveSize(c.Cfg.PrimSize)/2 + 3)
+			}
+		case "bits+missing-index-file":
+			// A translation that fails while reading the old index.
+			bad.Bits = otherBits()
+			if nums := numberedFiles(dir, idxBase); len(nums) > 0 {
+				p := filepath.Join(dir, fmt.Sprintf("%s.%d", idxBase, nums[0]))
+				if old, err := os.ReadFile(p); err == nil && len(old) > 0 {
+					os.Remove(p)
+					restore = func() { os.WriteFile(p, old, 0o644) }
+				}
+			}
 		case "index-size":
 			bad.IdxSize = uint32(effectiveSize(c.Cfg.IdxSize)/2 + 3)
 		case "primary-size":
@@ -432,7 +514,12 @@ func TestC17(t *testing.T) {
 		c := genClose(rt)
 		st, v := runClose(c)
 		cl := []string{"mode=" + c.Mode}
-		if st.inProgress {
+		switch {
+		case st.inProgress && c.Mode == "faultclose":
+			cl = append(cl, "close-returned-the-injected-error:"+c.Fail)
+		case st.inProgress && c.Mode == "failopen":
+			cl = append(cl, "open-failed:"+c.Fail)
+		case st.inProgress:
 			cl = append(cl, "background-work-in-progress-at-close")
 		}
 		ev.Record(c, st.inProgress, cl...)
